@@ -617,6 +617,62 @@ def run_names(ctx):
               lib.norm(v(0, 'B', 2)), ['name:cell', 'oracle:get'], inputs)
 
 
+# ---- family: names x sparse ranges x ignored sheets --------------------------------
+def run_names_sparse(mask, holes, ctx):
+    """Three sheets, each with a 3-cell column of which the cells in ``holes``
+    are not stored, and a name for the whole column; Sheet A sums every name.
+    ``mask``: ignored subset of the two other sheets."""
+    titles = ['A', 'B', 'Data_2']
+    sheets = []
+    for i, t in enumerate(titles):
+        cells = {}
+        for r in (1, 2, 3):
+            if (i, r) not in holes:
+                cells['A%d' % r] = {'form': 'n', 'v': 10 * (i + 1) + r}
+        sheets.append((t, cells))
+    names = {'col%d' % i: '%s!$A$1:$A$3' % t for i, t in enumerate(titles)}
+    names['one1'] = 'B!$A$1'
+    for i in range(3):
+        sheets[0][1]['C%d' % (i + 1)] = {'form': 'f', 'f': 'SUM(col%d)' % i}
+    ignored = [t for k, t in enumerate(titles[1:]) if mask >> k & 1]
+    key0 = 'C11/names-sparse/ignore=%d/holes=%s' % (
+        mask, ''.join('%d%d' % h for h in sorted(holes)) or '-')
+    inputs = {'family': 'names-sparse', 'mask': mask,
+              'holes': [list(h) for h in sorted(holes)]}
+    tags = ['names', 'name:range'] + (['ignored:some'] if ignored else []) + (
+        ['range:with-empty-cells'] if holes else [])
+    try:
+        model = load(sheets, names, ignore=ignored)
+    except Exception as exc:  # noqa: BLE001
+        ctx.fail(key0 + '/load', tags, inputs, 'loads', lib.exc_obs(exc))
+        return
+    ctx.ok(key0 + '/load', 'loads')
+    for i, t in enumerate(titles):
+        if t in ignored:
+            continue
+        d = model.defined_names.get('col%d' % i)
+        got = 'range:%r' % (d.cells,) if isinstance(
+            d, lib.xltypes.XLRange) else 'other:%s' % type(d).__name__
+        ctx.check('%s/target/%d' % (key0, i), got,
+                  'range:%r' % ([['%s!A%d' % (t, r)] for r in (1, 2, 3)],),
+                  tags, inputs)
+        want = sum(10 * (i + 1) + r for r in (1, 2, 3)
+                   if (i, r) not in holes)
+        ctx.check('%s/eval/%d' % (key0, i),
+                  lib.eval_addr(model, 'A!C%d' % (i + 1)), lib.norm(want),
+                  tags + ['oracle:evaluate'], inputs)
+    stored = {a for a, c in model.cells.items()
+              if c.formula is not None or c.value not in (None, '')}
+    bad = sorted(a for a in stored if a.split('!')[0] in ignored)
+    ctx.check(key0 + '/ignored-contribute-no-cells', 'cells:%s' % bad,
+              'cells:[]', tags + ['oracle:addresses'], inputs)
+
+
+SPARSE_HOLES = [frozenset(), frozenset({(0, 2)}), frozenset({(1, 1)}),
+                frozenset({(0, 1), (0, 3)}), frozenset({(2, 2), (1, 3)}),
+                frozenset({(0, 1), (0, 2), (0, 3)})]
+
+
 # ---- plan ---------------------------------------------------------------------------
 def orders(tier):
     base = NAMES4
@@ -648,6 +704,7 @@ def plan(tier):
     for fi in range(len(FORMS)):
         shards.append({'family': 'form', 'fi': fi, 'date1904': True})
     shards.append({'family': 'loads'})
+    shards.append({'family': 'names-sparse'})
     return shards
 
 
@@ -661,6 +718,12 @@ def run_shard(shard, ctx):
         ctx.sample({'family': f, 'form': FORMS[shard['fi']][0],
                     'spec': FORMS[shard['fi']][1],
                     'date1904': shard.get('date1904', False)})
+    elif f == 'names-sparse':
+        for mask in range(4):
+            for holes in SPARSE_HOLES:
+                run_names_sparse(mask, holes, ctx)
+        ctx.sample({'family': f, 'names': {'col0': 'A!$A$1:$A$3'},
+                    'note': 'A2 is not stored in the file'})
     elif f == 'loads':
         for a in range(len(LOAD_OPTS)):
             for b in range(len(LOAD_OPTS)):
@@ -694,6 +757,9 @@ def replay(inputs, ctx):
                           inputs.get('date1904', False))
     elif f == 'loads':
         run_loads(inputs['first'], inputs['second'], ctx)
+    elif f == 'names-sparse':
+        run_names_sparse(inputs['mask'],
+                         frozenset(tuple(h) for h in inputs['holes']), ctx)
     elif f == 'latin':
         run_form_latin(inputs['rot'], inputs['sheet'], ctx)
     elif f == 'sheets':
